@@ -8,12 +8,12 @@ VARIABLE c
 RECURSIVE Perms(_)
 Perms(S) == IF S = {} THEN {<<>>} ELSE UNION {{<<e>> \o p : p \in Perms(S \ {e})} : e \in S}
 Objs == UNION {Perms(S) : S \in (SUBSET Names) \ {{}}}
-Cells == {x \in [obj : Objs, g : UNION {Perms(S) : S \in {T \in SUBSET Names : Cardinality(T) \in {1, 2}}}, red : SUBSET Names] :
+Cells == {x \in [obj : Objs, g : UNION {Perms(S) : S \in {T \in SUBSET Names : Cardinality(T) \in {1, 2}}}, red : SUBSET Names, ds : BOOLEAN] :
             ToSet(x.g) \subseteq ToSet(x.obj) /\ ToSet(x.g) \subseteq x.red /\ x.red \subseteq ToSet(x.obj)}
 Init == c \in Cells
 Next == UNCHANGED c
 Spec == Init /\ [][Next]_c
-Out == NativeDims(c.obj, c.g, c.red, "grp")
+Out == NativeDimsOf(c.obj, c.g, c.red, "grp", c.ds)
 GroupOnce == Cardinality({i \in 1..Len(Out) : Out[i] = "grp"}) = 1
 KeptExactly == ToSet(Out) \ {"grp"} = ToSet(c.obj) \ c.red
 NoDuplicates == Cardinality(ToSet(Out)) = Len(Out)
